@@ -115,6 +115,23 @@ func mRun(r *engine.Run, mode string) int {
 			}
 		}
 	}
+	// deeper single-writer slice: one more statement than the multi-writer space, all write-time orders, no
+	// refresh/merge events (a single writer with decreasing write times already exercises every row-merge branch)
+	{
+		n := t.n + 1
+		if r.Thorough() {
+			n = t.n + 1
+		}
+		r.Bounds["single_writer_statements"] = n
+		for base := 0; base <= 1; base++ {
+			stmtHistories(n, 1, 1, base, 4096, allKinds, func(h hist) {
+				if plausible(h) {
+					h.Writers = 1
+					cases = append(cases, engine.J(mCase{Mode: mode, H: h, MaxRM: 0, Sub: 1}))
+				}
+			})
+		}
+	}
 	if r.Thorough() {
 		// transaction grouping: consecutive statements of one writer wrapped in BEGIN..COMMIT
 		for base := 0; base <= 1; base++ {
